@@ -14,6 +14,10 @@
 //!                                                  position's token amount (so `u64::MAX` = everything, used by harvest)
 //! Interest accrues only through [`accrue`] (the outside world acting).
 //!
+//! Harvest (`drift_harvest_reward`, bottom of the file): [`add_reward_market`] lists a further spot market, [`admin_deposit`]
+//! writes a deposit position of a bank's DRIFT user into a chosen slot (DRIFT's admin acting: directly in the store),
+//! [`harvest_keys`] / [`ix_harvest`] build the marginfi instruction with every account substitutable.
+//!
 //! Layouts are the ones of `drift_mocks::state` (byte offsets below, checked by [`layout_selfcheck`]).
 use crate::svm::{Acct, Vm};
 use crate::world::{self, kp, BankInfo, BankSpec, World};
@@ -1158,4 +1162,163 @@ pub fn venue_state(vm: &Vm, v: &VenueBank) -> VenueState {
         position_scaled_balance: sb,
         position_cumulative_deposits: cd,
     }
+}
+
+// ------------------------------------------------------------------------------------------
+// harvest set-up (`drift_harvest_reward`): further spot markets, "admin deposits", the instruction
+// ------------------------------------------------------------------------------------------
+/// a spot market other than a bank's own one (a market that pays rewards / holds an admin deposit)
+#[derive(Clone, Debug, PartialEq, Eq)]
+pub struct HarvestMarket {
+    pub market_index: u16,
+    pub spot_market: Pubkey,
+    pub vault: Pubkey,
+    pub mint: Pubkey,
+    pub token_program: Pubkey,
+    pub decimals: u8,
+}
+
+/// Fabricate (idempotently) spot market `market_index` of the existing mint `mint` with an empty vault owned by the DRIFT
+/// signer PDA: the venue listing another asset. The market has no oracle of its own (as the quote market).
+pub fn add_reward_market(w: &mut World, market_index: u16, mint: Pubkey, cumulative_deposit_interest: u128) -> HarvestMarket {
+    register();
+    ensure_state(&mut w.vm);
+    let spot_market = spot_market_pda(market_index);
+    let vault = spot_market_vault_pda(market_index);
+    let m = w.vm.get(&mint).expect("reward mint").clone();
+    let (token_program, decimals) = (m.owner, m.data[44]);
+    if w.vm.get(&spot_market).is_none() {
+        let now = w.vm.now();
+        w.vm.set(spot_market, spot_market_acct(spot_market, Pubkey::default(), mint, vault, decimals, market_index, 0, cumulative_deposit_interest.max(1), now));
+        let a = if token_program == spl_token::ID { world::spl_token_acct(mint, signer_pda().0, 0) } else { world::t22_token_acct(&m.data, mint, signer_pda().0, 0) };
+        w.vm.set(vault, a);
+    }
+    HarvestMarket { market_index, spot_market, vault, mint, token_program, decimals }
+}
+
+/// (market index, scaled balance, balance type) of spot position `slot` of a DRIFT user
+pub fn position_at(vm: &Vm, user: &Pubkey, slot: usize) -> (u16, u64, u8) {
+    let ud = vm.data(user);
+    if ud.len() != U_LEN || slot >= 8 {
+        return (0, 0, 0);
+    }
+    let o = pos_off(slot);
+    (rd_u16(ud, o + POS_MARKET_INDEX), rd_u64(ud, o + POS_SCALED_BALANCE), ud[o + POS_BALANCE_TYPE])
+}
+
+/// The outside world acting (DRIFT's admin, `admin_deposit`): spot position `slot` of `user` becomes / grows by a deposit of
+/// `tokens` native tokens in market `m` — scaled balance, cumulative deposits, the market's deposit balance and the
+/// market's vault all move as a real deposit would move them. Refused (Err) if the slot holds a balance of another
+/// market, or slot 0 is asked for a market other than 0 (DRIFT keeps slot 0 for the quote market). Returns the scaled
+/// balance added.
+pub fn admin_deposit(vm: &mut Vm, user: &Pubkey, m: &HarvestMarket, slot: usize, tokens: u64) -> Result<u64, String> {
+    if slot >= 8 || (slot == 0) != (m.market_index == 0) {
+        return Err(format!("slot {slot} cannot hold market {}", m.market_index));
+    }
+    let ud = vm.data(user).to_vec();
+    if ud.len() != U_LEN {
+        return Err("not a drift user".into());
+    }
+    let o = pos_off(slot);
+    let bal0 = rd_u64(&ud, o + POS_SCALED_BALANCE);
+    if bal0 > 0 && (rd_u16(&ud, o + POS_MARKET_INDEX) != m.market_index || ud[o + POS_BALANCE_TYPE] != 0) {
+        return Err(format!("slot {slot} is in use"));
+    }
+    for i in 0..8 {
+        if i != slot && rd_u64(&ud, pos_off(i) + POS_SCALED_BALANCE) > 0 && rd_u16(&ud, pos_off(i) + POS_MARKET_INDEX) == m.market_index {
+            return Err(format!("market {} already sits in slot {i}", m.market_index));
+        }
+    }
+    let sm = vm.data(&m.spot_market).to_vec();
+    let ci = rd_u128(&sm, SM_CUM_DEPOSIT_INTEREST);
+    let pi = 10u128.pow(19 - rd_u32(&sm, SM_DECIMALS));
+    let delta = (tokens as u128 * pi / ci.max(1)).min((u64::MAX - bal0) as u128) as u64;
+    let cd0 = if bal0 > 0 { rd_i64(&ud, o + POS_CUM_DEPOSITS) } else { 0 };
+    vm.modify(user, |a| {
+        if bal0 == 0 {
+            a.data[o..o + POS_LEN].fill(0);
+        }
+        wr(&mut a.data, o + POS_SCALED_BALANCE, &(bal0 + delta).to_le_bytes());
+        wr(&mut a.data, o + POS_CUM_DEPOSITS, &cd0.saturating_add(tokens.min(i64::MAX as u64) as i64).to_le_bytes());
+        wr(&mut a.data, o + POS_MARKET_INDEX, &m.market_index.to_le_bytes());
+    });
+    let db = rd_u128(&sm, SM_DEPOSIT_BALANCE) + delta as u128;
+    vm.modify(&m.spot_market, |a| wr(&mut a.data, SM_DEPOSIT_BALANCE, &db.to_le_bytes()));
+    let have = world::token_amount(vm.data(&m.vault));
+    vm.modify(&m.vault, |a| wr(&mut a.data, 64, &have.saturating_add(tokens).to_le_bytes()));
+    Ok(delta)
+}
+
+/// every account of marginfi's `DriftHarvestReward` (+ the remaining accounts handed through to DRIFT's `withdraw`)
+#[derive(Clone, Debug)]
+pub struct HarvestKeys {
+    pub bank: Pubkey,
+    pub fee_state: Pubkey,
+    pub liquidity_vault_authority: Pubkey,
+    pub intermediary_token_account: Pubkey,
+    pub destination_token_account: Pubkey,
+    pub drift_state: Pubkey,
+    pub integration_acc_2: Pubkey,
+    pub integration_acc_3: Pubkey,
+    pub harvest_drift_spot_market: Pubkey,
+    pub harvest_drift_spot_market_vault: Pubkey,
+    pub drift_signer: Pubkey,
+    pub reward_mint: Pubkey,
+    pub token_program: Pubkey,
+    pub remaining: Vec<AccountMeta>,
+}
+/// The harvest of market `m` for DRIFT bank `bank` with the canonical accounts: intermediary = ATA of the bank's liquidity
+/// vault authority, destination = ATA of the global fee wallet (addresses only; the caller makes them exist).
+/// Remaining accounts as a client passes them to DRIFT: [the bank's oracle], the bank's own spot market, the harvested
+/// spot market (writable), the reward mint.
+pub fn harvest_keys(w: &World, bank: usize, m: &HarvestMarket) -> HarvestKeys {
+    let b = &w.banks[bank];
+    let v = venue(w, bank);
+    let mut remaining = vec![];
+    if let Some(o) = v.oracle {
+        remaining.push(AccountMeta::new_readonly(o, false));
+    }
+    if v.spot_market != m.spot_market {
+        remaining.push(AccountMeta::new(v.spot_market, false));
+    }
+    remaining.push(AccountMeta::new(m.spot_market, false));
+    remaining.push(AccountMeta::new_readonly(m.mint, false));
+    HarvestKeys {
+        bank: b.key,
+        fee_state: w.fee_state,
+        liquidity_vault_authority: b.lv_auth,
+        intermediary_token_account: world::ata(&b.lv_auth, &m.mint, &m.token_program),
+        destination_token_account: world::ata(&w.fee_wallet, &m.mint, &m.token_program),
+        drift_state: v.state,
+        integration_acc_2: v.user,
+        integration_acc_3: v.user_stats,
+        harvest_drift_spot_market: m.spot_market,
+        harvest_drift_spot_market_vault: m.vault,
+        drift_signer: v.signer,
+        reward_mint: m.mint,
+        token_program: m.token_program,
+        remaining,
+    }
+}
+/// `drift_harvest_reward` (permissionless: the instruction has no signer account at all)
+pub fn ix_harvest(k: &HarvestKeys) -> Instruction {
+    let mut m = marginfi::accounts::DriftHarvestReward {
+        bank: k.bank,
+        fee_state: k.fee_state,
+        liquidity_vault_authority: k.liquidity_vault_authority,
+        intermediary_token_account: k.intermediary_token_account,
+        destination_token_account: k.destination_token_account,
+        drift_state: k.drift_state,
+        integration_acc_2: k.integration_acc_2,
+        integration_acc_3: k.integration_acc_3,
+        harvest_drift_spot_market: k.harvest_drift_spot_market,
+        harvest_drift_spot_market_vault: k.harvest_drift_spot_market_vault,
+        drift_signer: k.drift_signer,
+        reward_mint: k.reward_mint,
+        drift_program: program_id(),
+        token_program: k.token_program,
+    }
+    .to_account_metas(Some(true));
+    m.extend(k.remaining.iter().cloned());
+    mfi_ix(m, marginfi::instruction::DriftHarvestReward {}.data())
 }
